@@ -73,6 +73,7 @@ def generate(seed):
     # the history: a global order of (caller, op); each op owns a result slot
     slots = list(range(len(init)))
     slot_kind = {i: "cond" for i in slots}
+    gmodel = {i: t for i, t in enumerate(init)}  # model terms, to know each entry's kind while generating
     programs = [[] for _ in range(knobs["n_callers"])]
     order = []
     next_slot = len(init)
@@ -89,17 +90,31 @@ def generate(seed):
                 # bias: reuse a result of an earlier step
                 a = r.choice(conds[len(init):]) if r.random() < 0.5 else a
                 b = r.choice(conds[len(init):]) if r.random() < 0.3 else b
-            op = ("combine", next_slot, r.choice(OPS), a, b, r.choice(["operator", "class"]))
+            opn = r.choice(OPS)
+            op = ("combine", next_slot, opn, a, b, r.choice(["operator", "class"]))
             slot_kind[next_slot] = "cond"
+            gmodel[next_slot] = (opn, gmodel[a], gmodel[b])
         elif x < p_comb + p_fold:
-            op = ("spec_fold", next_slot, r.choice(OPS), _gen_fold_items(r, g, ctx, 2))
+            opn = r.choice(OPS)
+            items = _gen_fold_items(r, g, ctx, 2)
+            op = ("spec_fold", next_slot, opn, items)
             slot_kind[next_slot] = "cond"
+            gmodel[next_slot] = fold_model(opn, items)
         else:
             kind = r.choice(["map", "list", "mol"])
             allowed = {"map": ["key", "value", "condition"], "list": ["index", "value", "condition"], "mol": ["key", "index", "value", "condition", "list_condition", "map_condition"]}[kind]
             kw = []
+            want = {"key": {"key"}, "index": {"index"}, "value": {"value"}, "map_condition": {"key"}, "list_condition": {"index"}}
             for name in allowed:
                 if r.random() < 0.45:
+                    if r.random() < 0.8:
+                        # mostly an entry of the kind this argument accepts; combinations preferred
+                        ok = [c_ for c_ in conds if kinds_of(simplify(gmodel[c_])) <= want.get(name, {"value"}) and simplify(gmodel[c_]) != ("null",)]
+                        combos = [c_ for c_ in ok if simplify(gmodel[c_])[0] in OPS]
+                        pick = combos if combos and r.random() < 0.6 else ok
+                        if pick:
+                            kw.append((name, r.choice(pick)))
+                            continue
                     kw.append((name, r.choice(conds)))
             op = ("part", next_slot, kind, tuple(kw))
             slot_kind[next_slot] = "part"
@@ -137,6 +152,9 @@ def _gen_fold_items(r, g, ctx, depth):
     items = []
     for _ in range(r.randint(0, 3)):
         x = r.random()
+        if items and x < 0.15:
+            items.append(r.choice(items))  # the same entry again (a == a)
+            continue
         if x < 0.2:
             items.append(("null",))
         elif x < 0.5 and depth > 0:
